@@ -1,0 +1,8 @@
+//go:build verif
+
+package watchers
+
+// CheckThresholdForVerif exposes checkThreshold to the verification harness.
+func CheckThresholdForVerif(total, free uint64, minSpaceRequired float64) error {
+	return checkThreshold(total, free, minSpaceRequired)
+}
